@@ -3,8 +3,10 @@
 set -u
 d=$(realpath "$1"); shift
 if [ -n "$(git -C /repo status --porcelain)" ]; then echo "/repo not clean"; exit 2; fi
+# the evidence files are rewritten by every run: keep the clean-tree ones
+ev=$(mktemp -d /tmp/seedtest-ev.XXXXXX); cp -a /verif/evidence/. "$ev"/
 git -C /repo apply "$d/patch.diff" || exit 2
-trap 'git -C /repo checkout -- . ; git -C /repo status --porcelain' EXIT
+trap 'git -C /repo checkout -- . ; git -C /repo status --porcelain; cp -a "$ev"/. /verif/evidence/; rm -rf "$ev"' EXIT
 for c in "$@"; do
   out=$(cd /verif && ./check "$c" --tier "${TIER:-quick}" 2>&1); rc=$?
   echo "== $c exit=$rc  violations=$(echo "$out" | grep -c '^VIOLATION')"
